@@ -77,7 +77,23 @@ class Gen05(histgen.HistGen):
           out.append('[x.%s for x in $%s]' % (r.choice(tc)['colId'], rc['colId']))
     return r.choice(out)
 
+  def value(self, ctype, meta=None):
+    # references to rows that do not exist (yet): supported by the engine ("dangling" references)
+    base = ctype.split(':')[0]
+    if base in ('Ref', 'RefList') and meta is not None and self.r.random() < 0.12:
+      rows = self._target_rows(meta, ctype)
+      ghost = (max(rows) if rows else 0) + self.r.randint(1, 3)
+      return ghost if base == 'Ref' else ['L', ghost]
+    return super(Gen05, self).value(ctype, meta)
+
   def gen(self, kind, meta):
+    if kind == 'addrec' and self.r.random() < 0.15:
+      t = self.pick_table(meta)
+      if t is not None:
+        rows = meta.rows(t['tableId'])
+        first = (max(rows) if rows else 0) + 1
+        ids = list(range(first, first + self.r.randint(1, 3)))
+        return ['BulkAddRecord', t['tableId'], ids, {}]      # explicit row ids (may resolve dangling references)
     if kind == 'summaryformula':
       st = self.pick_table(meta, summary=True)
       src = meta.tables.get(st['summarySourceTable']) if st else None
